@@ -82,6 +82,7 @@ pub enum Pol {
     Helper(u64),
     HelperDrop(u64),
     Fail,
+    Panic,
 }
 #[derive(Clone, Copy, Debug, PartialEq)]
 pub enum Via {
@@ -198,10 +199,17 @@ impl Actor for Callee {
                         drop(tok);
                         out = "err";
                     }
+                    Pol::Panic => {
+                        drop(tok);
+                        out = "panic";
+                    }
                 }
                 obs("obs.handle_end", x, 0, vec![kvs("o", out)]);
                 if out == "err" {
                     return Err("err".into());
+                }
+                if out == "panic" {
+                    panic!("handler panics");
                 }
             }
         }
@@ -518,6 +526,13 @@ pub fn micro_scenarios() -> Vec<Scenario> {
             pol: vec![(1, Pol::Never), (2, Pol::HoldDrop(2)), (3, Pol::Fail), (4, Pol::Prompt)],
             clients: vec![vec![call(1, 0, Via::Macro, None)], vec![call(2, 0, Via::Macro, Some(3))], vec![Sleep(1), Drain(0), call(4, 0, Via::Cell, None)], vec![Sleep(1), call(3, 0, Via::Derived, None)]],
         },
+        // a panicking handler with requests queued behind it (supervised callee)
+        Scenario {
+            ncallees: 1,
+            sup: true,
+            pol: vec![(1, Pol::Late(1)), (2, Pol::Panic), (3, Pol::Prompt), (4, Pol::Stash)],
+            clients: vec![vec![call(4, 0, Via::Ref, None)], vec![call(1, 0, Via::Macro, Some(2))], vec![call(2, 0, Via::Cell, None)], vec![call(3, 0, Via::Derived, Some(3))]],
+        },
         // multi_call over two callees, one of them killed / drained around the call
         Scenario {
             ncallees: 2,
@@ -556,10 +571,10 @@ pub fn rand_scenario(rng: &mut Rng) -> Scenario {
         8 => Pol::Both,
         9 | 10 => Pol::Helper(2),
         _ => {
-            if rng.chance(1, 2) {
-                Pol::HelperDrop(2)
-            } else {
-                Pol::Fail
+            match rng.below(3) {
+                0 => Pol::HelperDrop(2),
+                1 => Pol::Fail,
+                _ => Pol::Panic,
             }
         }
     };
